@@ -7,7 +7,7 @@ extern int xrow, xoff, xtop;
 
 static const char *buftexts[] = {
 	"abc def\n  x_1 (y)\n\nlast.\n",
-	"a\tb\n\t\xc3\xa9\xe4\xb8\x80z\n",
+	"a\tb\n\t\xc3\xa9\xe4\xb8\x80z\na\xc3\xa8" "b\xc3\xa9" "c\xc3\xa8\n",
 	"e\xcc\x81x yz\n\n\n{a[b]}\n",
 	"",
 	"x\n",
